@@ -45,13 +45,18 @@ def stmtClass : Stmt → String
 def tExpr (t : PrecTable) (e : Expr) : List Tok := flat (slotExpr e (paren t e))
 /-- `_testlist(e)` -/
 def tTestlist (t : PrecTable) (e : Expr) : List Tok := flat (slotTestlist e (paren t e))
-/-- `visit(e)` -/
-def tVisit (t : PrecTable) (e : Expr) : List Tok := flat (paren t e)
+/-- `visit(e)`: plain dispatch. For a yield this reaches the *statement* visitor `visit_Yield`, which
+    also ends the statement (only a match guard can hold a yield in such a slot). -/
+def tVisit (t : PrecTable) (e : Expr) : List Tok :=
+  match e with
+  | .yield _ => flat (paren t e) ++ [.endStmt]
+  | .yieldFrom _ => flat (paren t e) ++ [.endStmt]
+  | _ => flat (paren t e)
 /-- value position of Expr / Assign / AugAssign: a yield needs no parentheses there. -/
 def tValue (t : PrecTable) (e : Expr) : List Tok :=
   match e with
-  | .yield _ => tVisit t e
-  | .yieldFrom _ => tVisit t e
+  | .yield _ => flat (paren t e)
+  | .yieldFrom _ => flat (paren t e)
   | _ => tTestlist t e
 
 def tOptExpr (t : PrecTable) : Option Expr → List Tok
